@@ -118,7 +118,9 @@ func (e *bufEnd) Close() error {
 	}
 	e.closed = true
 	for _, t := range e.timers {
-		t.Stop()
+		if t != nil {
+			t.Stop()
+		}
 	}
 	e.mu.Unlock()
 	e.w.mu.Lock()
@@ -142,7 +144,23 @@ func (e *bufEnd) CloseWrite() error {
 	return nil
 }
 
+// wakeAt arranges for the waiters of one direction to look at the deadline when it passes. Only the latest deadline
+// of a direction matters: the timer of the previous one is stopped (a handler that sets a deadline before every
+// call, in a loop, must not pile up timers here).
 func (e *bufEnd) wakeAt(t time.Time, h *half) {
+	slot := 0
+	if h == e.w {
+		slot = 1
+	}
+	e.mu.Lock()
+	defer e.mu.Unlock()
+	for len(e.timers) < 2 {
+		e.timers = append(e.timers, nil)
+	}
+	if old := e.timers[slot]; old != nil {
+		old.Stop()
+		e.timers[slot] = nil
+	}
 	if t.IsZero() {
 		return
 	}
@@ -150,14 +168,7 @@ func (e *bufEnd) wakeAt(t time.Time, h *half) {
 	if d < 0 {
 		d = 0
 	}
-	tm := time.AfterFunc(d, func() { h.mu.Lock(); h.cond.Broadcast(); h.mu.Unlock() })
-	e.mu.Lock()
-	// keep the list short: drop timers that already fired
-	if len(e.timers) > 8 {
-		e.timers = e.timers[len(e.timers)-4:]
-	}
-	e.timers = append(e.timers, tm)
-	e.mu.Unlock()
+	e.timers[slot] = time.AfterFunc(d, func() { h.mu.Lock(); h.cond.Broadcast(); h.mu.Unlock() })
 }
 
 func (e *bufEnd) SetDeadline(t time.Time) error {
